@@ -3,6 +3,7 @@
 //! case:  op | inputs for the Lean model | implementation result | oracle verdict
 mod util;
 mod c16;
+mod c17;
 mod c18;
 mod gen;
 
@@ -21,6 +22,7 @@ fn main() {
     let mut rng = Rng::new(seed ^ (prop.bytes().fold(0u64, |a, b| a.wrapping_mul(131).wrapping_add(b as u64))));
     match prop {
         "C16" => c16::run(&mut rng, n),
+        "C17" => c17::run(&mut rng, n),
         "C18" => c18::run(&mut rng, n),
         _ => {
             eprintln!("unknown property {prop}");
